@@ -16,6 +16,9 @@ pub enum VD {
     Text(String),
     DText(usize),
     DView(usize, Vec<Vec<VD>>),
+    /// a dynamic region whose closure reads NO signal: the alternative is chosen once, from the initial
+    /// value of a signal that the case never writes (the model treats it as a `dview` on that signal)
+    DView0(usize, Vec<Vec<VD>>),
     Show(usize, Vec<VD>),
     Frag(Vec<VD>),
 }
@@ -36,6 +39,7 @@ pub fn sx(v: &VD) -> String {
         VD::Text(s) => format!("(text {})", enc(s)),
         VD::DText(g) => format!("(dtext {g})"),
         VD::DView(g, alts) => format!("(dview {g}{})", alts.iter().map(|a| format!(" (alt{})", l(a))).collect::<String>()),
+        VD::DView0(g, alts) => format!("(dview0 {g}{})", alts.iter().map(|a| format!(" (alt{})", l(a))).collect::<String>()),
         VD::Show(g, cs) => format!("(show {g}{})", l(cs)),
         VD::Frag(cs) => format!("(frag{})", l(cs)),
     }
@@ -79,6 +83,7 @@ pub fn rd(s: &Sx) -> Option<VD> {
         "text" => VD::Text(dec(&l[1])?),
         "dtext" => VD::DText(num(&l[1])?),
         "dview" => VD::DView(num(&l[1])?, l[2..].iter().map(|a| { let Sx::L(a) = a else { return None }; a[1..].iter().map(rd).collect::<Option<Vec<_>>>() }).collect::<Option<_>>()?),
+        "dview0" => VD::DView0(num(&l[1])?, l[2..].iter().map(|a| { let Sx::L(a) = a else { return None }; a[1..].iter().map(rd).collect::<Option<Vec<_>>>() }).collect::<Option<_>>()?),
         "show" => VD::Show(num(&l[1])?, l[2..].iter().map(rd).collect::<Option<_>>()?),
         "frag" => VD::Frag(l[1..].iter().map(rd).collect::<Option<_>>()?),
         _ => return None,
@@ -108,6 +113,12 @@ pub fn build(v: &VD, sigs: &[Signal<u32>]) -> View {
                 if alts.is_empty() { View::new() } else { View::from(alts[v % alts.len()].iter().map(|c| build(c, &sigs)).collect::<Vec<View>>()) }
             })
         }
+        VD::DView0(g, alts) => {
+            let (v, alts, sigs) = (sigs[*g].get_untracked() as usize, alts.clone(), sigs.to_vec());
+            View::from_dynamic(move || {
+                if alts.is_empty() { View::new() } else { View::from(alts[v % alts.len()].iter().map(|c| build(c, &sigs)).collect::<Vec<View>>()) }
+            })
+        }
         VD::Show(g, cs) => {
             let s = sigs[*g];
             let (cs, sigs) = (cs.clone(), sigs.to_vec());
@@ -123,7 +134,8 @@ const ATTRS: &[&str] = &["class", "id", "data-x", "title", "hidden", "open"];
 pub fn gen(rng: &mut Rng, depth: usize, nsig: usize, budget: &mut usize) -> VD {
     if *budget > 0 { *budget -= 1; }
     let leaf = depth == 0 || *budget == 0;
-    match rng.below(if leaf { 3 } else { 10 }) {
+    // `nsig` writable signals 0..nsig-1; signal `nsig` exists too but is never written (input-less regions)
+    match rng.below(if leaf { 3 } else { 11 }) {
         0 => VD::Text(["a", "b", "", "x<y", "hello"][rng.below(5)].to_string()),
         1 | 2 => VD::DText(rng.below(nsig)),
         3 | 4 => {
@@ -131,6 +143,10 @@ pub fn gen(rng: &mut Rng, depth: usize, nsig: usize, budget: &mut usize) -> VD {
             VD::DView(rng.below(nsig), (0..n).map(|_| (0..rng.below(3)).map(|_| gen(rng, depth - 1, nsig, budget)).collect()).collect())
         }
         5 => VD::Show(rng.below(nsig), (0..1 + rng.below(2)).map(|_| gen(rng, depth - 1, nsig, budget)).collect()),
+        10 => {
+            let n = 1 + rng.below(2);
+            VD::DView0(nsig, (0..n).map(|_| (0..1 + rng.below(3)).map(|_| gen(rng, depth - 1, nsig, budget)).collect()).collect())
+        }
         6 => VD::Frag((0..rng.below(3)).map(|_| gen(rng, depth - 1, nsig, budget)).collect()),
         _ => {
             let mut names: Vec<&str> = vec![];
